@@ -328,13 +328,16 @@ def synth_profile(line):
         inp = inp_of(line, moy)
         s = month_start_h(moy, leap)
         pkc, pkh, _, _ = _numbers(inp, moy)
+        # the hour of the day at which the peak occurs varies with the month: mid-day, the last hour (23:00-24:00) and the first
+        hc = (12, 23, 0)[moy % 3]
+        hh = (23, 13, 1)[moy % 3]
         if inp["pkc"]:
-            prof[s + inp["dayC"] * 24 + 12] = -pkc * 1000.0
+            prof[s + inp["dayC"] * 24 + hc] = -pkc * 1000.0
             for d in (2, 3, 4, 5, 6, 7, 10, 11, 12):
                 for h in range(0, 12):
                     prof[s + d * 24 + 2 * h] = -(20.0 + h / 4.0) * 1000.0
         if inp["pkh"]:
-            prof[s + inp["dayH"] * 24 + 13] = pkh * 1000.0
+            prof[s + inp["dayH"] * 24 + hh] = pkh * 1000.0
             for d in (2, 3, 4, 5, 6, 7, 10, 11, 12):
                 for h in range(0, 12):
                     prof[s + d * 24 + 2 * h + 1] = (15.0 + h / 4.0) * 1000.0
